@@ -18,6 +18,10 @@ def _b(t):
 def sym_fold_source(vm, arg):
     """if arg is a generator expression / sequence over an SSeq of symbolic length, return
     (seq, elem_fn) where elem_fn(j) evaluates the element for index term j in pure mode"""
+    if isinstance(arg, I.GenCall):
+        arg = vm.gencall_as_sseq(arg)
+        if arg is None:
+            return None
     if isinstance(arg, SSeq):
         n = z3.simplify(arg.length)
         if z3.is_int_value(n):
@@ -29,6 +33,8 @@ def sym_fold_source(vm, arg):
             return None
         saved_pure = vm.pure
         it = vm.eval(gens[0].iter, arg.env)
+        if isinstance(it, I.GenCall):
+            it = vm.gencall_as_sseq(it)
         if not isinstance(it, SSeq):
             return None
         n = z3.simplify(it.length)
@@ -155,7 +161,29 @@ def b_min(vm, args, kwargs, ctx):
     return _minmax(vm, args, kwargs, False)
 
 
+def _seq_pick(vm, i, old_len, old_elem, new):
+    return vm.merge(i < old_len, old_elem(i), new)
+
+
 def b_sum(vm, args, kwargs, ctx):
+    if isinstance(args[0], I.GenCall) and vm.gencall_as_sseq(args[0]) is None:
+        # sum(<generator function call>): run the generator body, accumulating the yields in the
+        # ghost local __acc__ (loops inside are annotated and mention __acc__ in their invariants)
+        gc = args[0]
+        gc.env.set('__acc__', args[1] if len(args) > 1 else 0)
+        old = vm.hooks.get('yield')
+        vm.hooks['yield'] = lambda v: gc.env.set('__acc__', vm.binop(ast.Add(), gc.env.get('__acc__'), v))
+        try:
+            try:
+                vm.exec_block(gc.clo.node.body, gc.env)
+            except I._Return:
+                pass
+        finally:
+            if old is None:
+                vm.hooks.pop('yield', None)
+            else:
+                vm.hooks['yield'] = old
+        return gc.env.get('__acc__')
     src = sym_fold_source(vm, args[0])
     if src:
         seq, elem, cond = src
@@ -184,8 +212,8 @@ def _anyall(vm, args, is_any):
             body = z3.And(c, body) if is_any else z3.Implies(c, body)
         rng = z3.And(0 <= j, j < n)
         if is_any:
-            return STruth(z3.Exists([j], z3.And(rng, body)))
-        return STruth(z3.ForAll([j], z3.Implies(rng, body)))
+            return SBool(z3.Exists([j], z3.And(rng, body)))
+        return SBool(z3.ForAll([j], z3.Implies(rng, body)))
     items = vm.iterate(args[0])
     terms = []
     for x in items:
@@ -197,7 +225,7 @@ def _anyall(vm, args, is_any):
         terms.append(t)
     if not terms:
         return not is_any
-    return STruth(z3.Or(*terms) if is_any else z3.And(*terms))
+    return SBool(z3.Or(*terms) if is_any else z3.And(*terms))
 
 
 def b_any(vm, args, kwargs, ctx):
@@ -452,6 +480,9 @@ def b_list(vm, args, kwargs, ctx):
         if not z3.is_int_value(n):
             return x      # immutable view; mutation of it is out of subset
     if isinstance(x, I.GenCall):
+        seq = vm.gencall_as_sseq(x)
+        if seq is not None:
+            return b_list(vm, [seq], kwargs, ctx)
         return run_generator(vm, x)
     return list(vm.iterate(x))
 
@@ -645,6 +676,12 @@ def run_generator(vm, gc):
 # ------------------------------------------------------------------ methods of builtin types
 
 def call_method(vm, obj, name, args, kwargs):
+    if isinstance(obj, SSeq) and name == 'append' and getattr(obj, 'fn', None) is None:
+        # in-place append on a (local, computed) sequence of symbolic length
+        old_len, old_elem, new = obj.length, obj.elem, args[0]
+        obj.length = old_len + 1
+        obj.elem = lambda i: _seq_pick(vm, i, old_len, old_elem, new)
+        return None
     if isinstance(obj, list):
         if name == 'append':
             obj.append(args[0])
